@@ -746,9 +746,10 @@ def _wrapd(d, n):
     return (d + n / 2.0) % n - n / 2.0
 
 
-def _tol(impl, up, kind):
+def _tol(impl, up, kind, dtype=None):
     if kind in ("identical", "integer"):
-        return EXACT_TOL
+        # float32 images: the parabolic step on the 1/64-pixel grid divides differences of nearly equal float32 numbers
+        return EXACT_TOL * (4 if dtype == "float32" else 1)
     if impl == "numpy":
         return PARABOLIC_TOL if up <= 1 else 1.0 / up
     return 0.5 if up <= 2 else 1.0 / up   # torch: half-pixel estimate for upsample <= 2
@@ -853,7 +854,7 @@ def rt_clauses(inp):
     if not np.all(np.isfinite(sh)):
         bad.append(("finite", f"returned {sh}"))
         return bad
-    tol = _tol(impl, up, kind)
+    tol = _tol(impl, up, kind, inp.get("dtype"))
     err = [abs(_wrapd(sh[i] - s[i], (H, W)[i])) for i in range(2)]
     if max(err) > tol:
         name = {"identical": "identical-images-give-zero-shift", "integer": "integer-shift-exact", "subpixel": "subpixel-shift-within-one-upsampled-pixel"}[kind]
@@ -866,7 +867,7 @@ def rt_clauses(inp):
     except Exception as e:
         return bad + [("no-exception", f"swapped call raised {type(e).__name__}: {e}")]
     anti = [abs(_wrapd(sh[i] + sw[i], (H, W)[i])) for i in range(2)]
-    if max(anti) > (EXACT_TOL if kind != "subpixel" else 2 * tol):
+    if max(anti) > (tol if kind != "subpixel" else 2 * tol):
         bad.append(("swapping-negates", f"shift(a,b)={np.round(sh, 4).tolist()} but shift(b,a)={np.round(sw, 4).tolist()}"))
     if al is not None:
         want = _translate(img, tuple(sh)) if not all(float(x).is_integer() for x in sh) else np.roll(img, (int(sh[0]), int(sh[1])), (0, 1))
